@@ -29,9 +29,9 @@ func init() {
 	caseGens["C04"] = caseGen{
 		count: func(tier string) int {
 			if tier == "thorough" {
-				return 9000
+				return 20000
 			}
-			return 1500
+			return 4000
 		},
 		gen: genC04,
 	}
